@@ -27,27 +27,34 @@ type Opts struct {
 	Classes     bool
 	Direction   bool
 	Tooltips    bool
-	DeepNest    bool // containers are likely and nest to depth 4
-	LabelPos    bool // label.near / icon.near positions on shapes, containers and near shapes
-	CrossEdges  bool // connections from outside into grids / sequence diagrams, some of them parallel
+	DeepNest    bool   // containers are likely and nest to depth 4
+	LabelPos    bool   // label.near / icon.near positions on shapes, containers and near shapes
+	CrossEdges  bool   // connections from outside into grids / sequence diagrams, some of them parallel
 	SpecialOnly string // "grid" | "sequence" | "near": make that construct the point of the diagram
+	// second-generation options (modes text2 / render2); none of them draws from the random source unless set,
+	// so the diagrams of the older modes stay what they were
+	Comments     bool // line comments (empty, blank, indented, trailing blanks), block comments, inside maps
+	NumberLabels bool // labels spelled like numbers in unusual forms: 007, +5, 0x1F, 1_000, 1e3, .5
+	Boundary     bool // explicit boundary values of styles (0, maxima, false) on shapes and connections
+	EdgeLinks    bool // links (with metacharacters when Tricky) and tooltips on labelled connections
+	Label3D      bool // 3d / multiple shapes with every outside label and icon position
 }
 
 type ObjMeta struct {
 	ID       string // absolute ID as written (quoted where needed)
 	Shape    string
-	W, H     int // explicit size, 0 = none
+	W, H     int    // explicit size, 0 = none
 	Role     string // "", "grid", "gridcell", "seq", "actor", "near", "container"
 	Label    string
 	HasLabel bool
 }
 
 type Diagram struct {
-	Text    string
-	Objs    []ObjMeta
-	NEdges  int
-	Feats   []string
-	Markers []string // user strings that carry the injection marker
+	Text      string
+	Objs      []ObjMeta
+	NEdges    int
+	Feats     []string
+	Markers   []string // user strings that carry the injection marker
 	SeqIDs    []string
 	SeqActors []int
 	GridIDs   []string
@@ -62,6 +69,8 @@ var trickyLabels = []string{`"ZQXJ\" onload=\"alert(1)"`, `"</text><script>ZQXJ(
 var colors = []string{"red", `"#ff0000"`, `"#0f0"`, "blue", `"#A1B2C3"`, "honeydew", `"linear-gradient(#f00, #00f)"`}
 var labelPositions = []string{"outside-top-left", "outside-top-center", "outside-top-right", "outside-left-center", "outside-right-center", "outside-bottom-center", "outside-bottom-left",
 	"top-center", "center-center", "bottom-right", "top-left", "outside-left-top", "outside-right-bottom", "border-top-center"}
+var outsidePositions = []string{"outside-top-left", "outside-top-center", "outside-top-right", "outside-left-top", "outside-left-center", "outside-left-bottom", "outside-right-top", "outside-right-center",
+	"outside-right-bottom", "outside-bottom-left", "outside-bottom-center", "outside-bottom-right"}
 var NearConsts = []string{"top-left", "top-center", "top-right", "center-left", "center-right", "bottom-left", "bottom-center", "bottom-right"}
 
 type g struct {
@@ -73,7 +82,7 @@ type g struct {
 }
 
 func (x *g) pick(a []string) string { return a[x.r.Intn(len(a))] }
-func (x *g) p(n int) bool         { return x.r.Intn(100) < n }
+func (x *g) p(n int) bool           { return x.r.Intn(100) < n }
 
 func (x *g) name(scope string) string {
 	for tries := 0; tries < 50; tries++ {
@@ -94,7 +103,71 @@ func (x *g) name(scope string) string {
 	return n
 }
 
+var numberLabels = []string{"007", "+5", "0x1F", "1_000", "1e3", ".5", "5.", "-0", "00", "1.50", "0b11", "0o17", "1E2", "+.5e1", "9007199254740993", "0.10", "-007"}
+var commentLines = []string{"#", "# ", "#   ", "#\t", "# note", "#note", "#  two  spaces", "# trailing blanks   ", "## double", "# ünï 日本", "#!shebang", "# a: b {", "\"\"\" block comment \"\"\"", "\"\"\"\nmulti\n  line\n\"\"\""}
+
+// comment writes 0-2 comment lines at indentation ind
+func (x *g) comment(ind string) {
+	if !x.o.Comments || !x.p(30) {
+		return
+	}
+	for k := 1 + x.r.Intn(2); k > 0; k-- {
+		c := x.pick(commentLines)
+		for _, l := range strings.Split(c, "\n") {
+			fmt.Fprintf(&x.sb, "%s%s\n", ind, l)
+		}
+	}
+	x.d.Feats = append(x.d.Feats, "comments")
+}
+
+// boundary writes explicit boundary values of style keywords
+func (x *g) boundary(ind string, isEdge bool) {
+	if !x.o.Boundary || !x.p(60) {
+		return
+	}
+	for k := 1 + x.r.Intn(3); k > 0; k-- {
+		switch x.r.Intn(10) {
+		case 0:
+			fmt.Fprintf(&x.sb, "%sstyle.stroke-dash: %s\n", ind, x.pick([]string{"0", "0", "10", "1"}))
+		case 1:
+			fmt.Fprintf(&x.sb, "%sstyle.stroke-width: %s\n", ind, x.pick([]string{"0", "0", "15", "1"}))
+		case 2:
+			fmt.Fprintf(&x.sb, "%sstyle.opacity: %s\n", ind, x.pick([]string{"0", "1", "0.0", "1.0"}))
+		case 3:
+			fmt.Fprintf(&x.sb, "%sstyle.font-size: %s\n", ind, x.pick([]string{"8", "100"}))
+		case 4:
+			fmt.Fprintf(&x.sb, "%sstyle.bold: false\n", ind)
+		case 5:
+			fmt.Fprintf(&x.sb, "%sstyle.italic: false\n", ind)
+		case 6:
+			if isEdge {
+				fmt.Fprintf(&x.sb, "%sstyle.animated: false\n", ind)
+			} else {
+				fmt.Fprintf(&x.sb, "%sstyle.border-radius: %s\n", ind, x.pick([]string{"0", "1", "999"}))
+			}
+		case 7:
+			if !isEdge {
+				fmt.Fprintf(&x.sb, "%sstyle.shadow: false\n", ind)
+			} else {
+				fmt.Fprintf(&x.sb, "%sstyle.underline: false\n", ind)
+			}
+		case 8:
+			if !isEdge {
+				fmt.Fprintf(&x.sb, "%sstyle.multiple: false\n", ind)
+			}
+		case 9:
+			if !isEdge {
+				fmt.Fprintf(&x.sb, "%sstyle.double-border: false\n", ind)
+			}
+		}
+	}
+	x.d.Feats = append(x.d.Feats, "boundary-styles")
+}
+
 func (x *g) label() string {
+	if x.o.NumberLabels && x.p(25) {
+		return x.pick(numberLabels)
+	}
 	if x.o.Tricky && x.p(50) {
 		return x.pick(trickyLabels)
 	}
@@ -157,6 +230,7 @@ func (x *g) obj(abs, ind string, depth int, role string, budget *int) string {
 	if x.o.DeepNest {
 		isContainer = depth < 4 && *budget > 0 && x.p(65)
 	}
+	x.comment(ind)
 	fmt.Fprintf(&x.sb, "%s%s: ", ind, n)
 	if x.p(45) {
 		m.Label = x.label()
@@ -165,6 +239,7 @@ func (x *g) obj(abs, ind string, depth int, role string, budget *int) string {
 	}
 	x.sb.WriteString("{\n")
 	in2 := ind + "  "
+	x.comment(in2)
 	if !isContainer && role != "actor" {
 		if x.o.AllShapes || x.p(50) {
 			m.Shape = x.pick(Shapes)
@@ -200,6 +275,20 @@ func (x *g) obj(abs, ind string, depth int, role string, budget *int) string {
 		}
 	}
 	x.styles(in2, false)
+	x.boundary(in2, false)
+	if x.o.Label3D && !isContainer && role == "" && x.p(70) {
+		// every outside position next to the offsets that 3d and multiple add to the drawn extent
+		if (m.Shape == "rectangle" || m.Shape == "square" || m.Shape == "hexagon") && x.p(60) {
+			fmt.Fprintf(&x.sb, "%sstyle.3d: true\n", in2)
+		} else {
+			fmt.Fprintf(&x.sb, "%sstyle.multiple: true\n", in2)
+		}
+		if !m.HasLabel {
+			fmt.Fprintf(&x.sb, "%slabel: a longer label with several words\n", in2)
+		}
+		fmt.Fprintf(&x.sb, "%slabel.near: %s\n", in2, x.pick(outsidePositions))
+		x.d.Feats = append(x.d.Feats, "label-3d")
+	}
 	// label positions only on containers (and on near shapes, below): on leaves the engines' label padding
 	// interacts with explicit sizes and connection ends in ways outside the properties' wording
 	if x.o.LabelPos && isContainer && (x.p(35) || (x.o.DeepNest && x.p(60))) {
@@ -236,14 +325,32 @@ func (x *g) edges(ids []string, ind string, n int) {
 		if strings.HasPrefix(a, b+".") || strings.HasPrefix(b, a+".") {
 			continue
 		}
+		x.comment(ind)
 		fmt.Fprintf(&x.sb, "%s%s %s %s", ind, a, x.pick(arrows), b)
 		x.d.NEdges++
+		labelled := false
 		if x.p(40) {
 			fmt.Fprintf(&x.sb, ": %s", x.label())
+			labelled = true
 		}
-		if x.p(30) {
+		if x.p(30) || ((x.o.Boundary || x.o.EdgeLinks) && x.p(70)) {
 			x.sb.WriteString(" {\n")
 			x.styles(ind+"  ", true)
+			x.boundary(ind+"  ", true)
+			if x.o.EdgeLinks && x.p(50) {
+				if !labelled {
+					fmt.Fprintf(&x.sb, "%s  label: go\n", ind)
+				}
+				if x.o.Tricky {
+					fmt.Fprintf(&x.sb, "%s  link: %s\n", ind, x.pick([]string{`'https://example.com/?q=" onclick="ZQXJ(1)'`, `"https://example.com/\"><ZQXJ/>"`, `"https://example.com/?a=1&b=<2>"`, `"https://example.com/'x'"`}))
+				} else {
+					fmt.Fprintf(&x.sb, "%s  link: https://example.com/e%d\n", ind, x.r.Intn(9))
+				}
+				if x.p(40) {
+					fmt.Fprintf(&x.sb, "%s  tooltip: %s\n", ind, x.label())
+				}
+				x.d.Feats = append(x.d.Feats, "edge-link")
+			}
 			if x.p(30) {
 				fmt.Fprintf(&x.sb, "%s  target-arrowhead: %s {shape: %s}\n", ind, x.pick([]string{"1", "*", `"n"`}), x.pick([]string{"triangle", "arrow", "diamond", "circle", "cf-one", "cf-many"}))
 			}
@@ -397,7 +504,6 @@ func (x *g) near(ind string) {
 	}
 	x.d.Feats = append(x.d.Feats, "near")
 }
-
 
 // boardsBlock returns a layers/scenarios/steps block; where it is placed relative to the other
 // declarations matters for scenarios and steps (they inherit what was declared before them).
